@@ -419,12 +419,22 @@ class H2Server:
             return
         self.ledger.server_sent_window_update(sid, inc)
 
+    def _dep_target(self, pol: str):
+        """The stream whose own credit is withheld: the first one, or (dep:<total>:<ordinal>) the ordinal-th request."""
+        parts = pol.split(":")
+        if len(parts) > 2:
+            hit = [k for k, r_ in self.reqs.items() if r_.ordinal == int(parts[2])]
+            return hit[0] if hit else None
+        return min(self.reqs) if self.reqs else None
+
     def _release_dep(self) -> None:
         pol = self.script.get("win", "auto")
         if not pol.startswith("dep:") or not self.reqs:
             return
         total = int(pol.split(":")[1])
-        first = min(self.reqs)
+        first = self._dep_target(pol)
+        if first is None:
+            return
         owed = self.upload_credit_owed.get(first, 0)
         if owed and sum(1 for k, r in self.reqs.items() if k != first and r.complete) >= total - 1:
             self.upload_credit_owed[first] = 0
@@ -485,7 +495,9 @@ class H2Server:
             # until the other uploads (dep:<how many requests in all>) have been received completely
             total = int(pol.split(":")[1])
             self._wu(0, n)
-            first = min(self.reqs) if self.reqs else sid
+            first = self._dep_target(pol)
+            if first is None:
+                first = sid if len(pol.split(":")) <= 2 else -1
             done_others = sum(1 for k, r in self.reqs.items() if k != first and r.complete)
             if sid == first and done_others < total - 1:
                 self.upload_credit_owed[sid] = self.upload_credit_owed.get(sid, 0) + n
